@@ -413,6 +413,9 @@ class InformLoopInGraph(SetLoopGiven):
     qual = 'Stream._inform_loop'
     name = 'Stream._inform_loop[node inside a graph]'
     inline = ()
+    # C03 / C02: a node that never learns the loop of its pipeline emits inline on the caller's thread and discards the awaitables of
+    # its consumers (Stream.emit, `self.loop is None` branch): backpressure in the threaded mode rests on the percolation
+    props = ['C19', 'C03']
 
     def build(self, I):
         st = self.setup(I)
